@@ -445,7 +445,27 @@ type stackCase struct {
 }
 
 func genStack(t *rapid.T) stackCase {
-	return stackCase{Ops: genOps3(t, 5), Pts: genRaw(t, 30, false)}
+	c := stackCase{Ops: genOps3(t, 5), Pts: genRaw(t, 30, false)}
+	if rapid.IntRange(0, 3).Draw(t, "prealigned") == 0 {
+		// parts that are (partly) modelled in place: boxes on a quarter grid, some of which already sit exactly on
+		// the top of the part below them (the move is by exactly zero), others modelled at z = 0
+		c.Ops = nil
+		n := rapid.IntRange(3, 5).Draw(t, "nparts")
+		top := float64(rapid.IntRange(-4, 4).Draw(t, "floor")) / 4
+		for i := 0; i < n; i++ {
+			h := float64(rapid.IntRange(1, 6).Draw(t, "h")) / 4
+			z0 := 0.0
+			if i == 0 || rapid.IntRange(0, 2).Draw(t, "inplace") != 0 {
+				z0 = top
+			}
+			x0, y0 := float64(rapid.IntRange(-4, 2).Draw(t, "x0"))/4, float64(rapid.IntRange(-4, 2).Draw(t, "y0"))/4
+			w, d := float64(rapid.IntRange(1, 6).Draw(t, "w"))/4, float64(rapid.IntRange(1, 6).Draw(t, "d"))/4
+			sh := gen.Shape3{Kind: "rect", A: kit.V3{x0, y0, z0}, B: kit.V3{x0 + w, y0 + d, z0 + h}}
+			c.Ops = append(c.Ops, &gen.Node{Op: "prim", Shape: &sh})
+			top += h
+		}
+	}
+	return c
 }
 
 func checkStack(c stackCase, o *kit.Obs) error {
